@@ -65,6 +65,11 @@ pub fn rerun_fixed(ctx: &mut Ctx) {
 pub fn replay(ctx: &mut Ctx, j: &J) -> Option<bool> {
     let d = j.get("detail").unwrap_or(j);
     let before = ctx.report.violations.len();
+    if d.get("concurrent").is_some() {
+        // a many-threads-at-once witness: the fixed families of the check, run again in this process
+        rerun_fixed(ctx);
+        return Some(ctx.report.violations.len() > before);
+    }
     let ok = match ctx.id.as_str() {
         "C01" => c01::replay(ctx, d),
         "C02" => c02::replay(ctx, d),
